@@ -318,6 +318,15 @@ UPGRADER:
 		case stateStatusBefore:
 			switch c {
 			case ' ':
+			case '\r':
+				// empty reason phrase: "HTTP/1.1 200 \r\n".
+				p.Processor.OnStatus(p, p.statusCode, "")
+				p.statusCode = 0
+				p.status = ""
+				p.nextState(stateStatusLF)
+				continue
+			case '\n':
+				return ErrCRExpected
 			default:
 				if isAlpha(c) {
 					start = i
